@@ -1,6 +1,8 @@
 //! Scenario registry: one module per property.
 use crate::{Scenario, Tier};
 pub mod c01;
+pub mod c09;
+pub mod c14;
 pub mod c17;
 pub mod c19;
 pub mod c20;
@@ -13,6 +15,8 @@ pub fn sc(prop: &'static str, tier: Tier, name: &str, desc: &str, max_paths: u64
 pub fn all(seed: u64) -> Vec<Scenario> {
     let mut v = vec![];
     v.extend(c01::scenarios(seed));
+    v.extend(c09::scenarios(seed));
+    v.extend(c14::scenarios(seed));
     v.extend(c17::scenarios(seed));
     v.extend(c19::scenarios(seed));
     v.extend(c20::scenarios(seed));
